@@ -55,7 +55,7 @@ HARNESS_BIN = "c13"
 NCASES = {"quick": 12000, "thorough": 200000}
 CASE_TIMEOUT = {"quick": 30, "thorough": 120}
 
-LEVEL_TEXT = ("Machine-checked Coq theorems (77 pinned) at three levels. (1) Value level, every word size >= 2, every modulus >= 1, all "
+LEVEL_TEXT = ("Machine-checked Coq theorems (81 pinned) at three levels. (1) Value level, every word size >= 2, every modulus >= 1, all "
               "integers: construction of the ring, reduce for every size class and sign, + - * neg dbl sqr ==, the two exponentiation "
               "algorithms (binary method word by word; sliding window with a table of odd powers - proved generically for any carrier, "
               "every window length), inverse, division, ring identity and the num_modular::Reducer implementation preserve the "
@@ -70,17 +70,21 @@ LEVEL_TEXT = ("Machine-checked Coq theorems (77 pinned) at three levels. (1) Val
               "sqr_normalized / mul_in_place / the sliding-window pow - with C01's as-is mul::multiply / sqr::sqr, C02's as-is "
               "div::div_rem_in_place, num-modular's div_rem_3by2 as transcribed and C01's add_signed_mul as the subtract-multiply kernel "
               "(C13_words_*_src); inv_large on word lists (unshift, the 0 / 1 / 2 / n word dispatch, the `g_len == 1 && raw[0] == 1` test on "
-              "the words of g, zero fill, shift back, is_valid, negate) returns Some(inverse) exactly when gcd = 1, given only the contract of "
-              "the multi-word extended gcd. (3) Both extracted 64-bit models the oracle runs - the value-level one (C13_run_*) and the one "
+              "the words of g, zero fill, shift back, is_valid, negate) returns Some(inverse) exactly when gcd = 1; gcd_ext_word and "
+              "gcd_ext_dword are transcribed (division, C12's as-is primitive extended Euclid - proved here to return cofactors of opposite "
+              "signs bounded by the other operand over the gcd - and the rebuild |b| = q|t| + |s| with the sign rule of the source) and "
+              "proved to meet the contract with no carry leaving the buffer, so the only premise left is the contract of gcd_ext_in_place "
+              "(Lehmer) on values of three and more words (C13_words_inv_lehmer_only, C13_externals_lehmer_only). (3) Both extracted 64-bit models the oracle runs - the value-level one (C13_run_*) and the one "
               "on word lists with the real kernels / num-modular transcribed (C13_hrun_*) - are proved equal to the specification for all "
               "inputs. Regenerated from the Rust sources on every run and proved over the generated definitions (C13_gen_*): the "
               "window-length selection of large::pow (the model RUNS the regenerated function; its range [1, WORD_BITS) is proved for whatever "
               "cost function the source has; table of window lengths for bit lengths 2..4096), table size and first bit, the comparison "
               "methods of add_in_place / dbl_in_place / mul_normalized / sqr_normalized / is_valid / check, the long-product switches, the "
               "units, and the list of primitive types with an IntoRing impl (each returns the reduced form of every value of its type).")
-LEVEL_NOTE = ("Trusted: Coq kernel, extraction (FastZ.v directives), zarith, harness. Still by contract only: dashu's multi-word extended gcd "
-              "(gcd_ext_word / gcd_ext_dword / gcd_ext_in_place: Lehmer; C12 has a value-level as-is model but no proof yet) behind inv / "
-              "division of the multi-word ring - the oracle runs an exact instance that meets the contract. At value level only (no word "
+LEVEL_NOTE = ("Trusted: Coq kernel, extraction (FastZ.v directives), zarith, harness. Still by contract only: gcd::gcd_ext_in_place "
+              "(Lehmer's algorithm on values of three and more words; C12 has a value-level as-is model but no proof yet) behind inv / "
+              "division of the multi-word ring - the oracle runs an exact instance that meets the contract; the transcriptions of "
+              "gcd_ext_word / gcd_ext_dword are proved but not executed by the oracle (their fuel bound is linear in the operand). At value level only (no word "
               "lists): the Reducer impl's reduce_once / reduce_negate (sub_large on UBig), clone_from. Primitive machine arithmetic (u128 "
               "widening multiplication, %, shifts) is taken at its mathematical meaning. Compared only (not proved): that the Rust code is "
               "what the models transcribe - 12000 generated + corpus cases per run against the specification and against BOTH as-is "
@@ -102,7 +106,7 @@ RULE = ("cases = operation (every call form: by value / by reference / assigning
         "low words, all ones, low words zero, random multi-word) with the residue 1, 2, 3+ words long (the three extended-gcd branches) - "
         "each through Reduced and through the Reducer trait, each operand also as a negative / larger representative of its residue. "
         "A case is non-trivial when the oracle evaluated the Coq specification on it; distinct = distinct case texts.")
-EXPLANATION = ("Theorems (coq/props/C13.v, 77 pinned): for every word size >= 2 and every modulus m >= 1 the as-is model of "
+EXPLANATION = ("Theorems (coq/props/C13.v, 81 pinned): for every word size >= 2 and every modulus m >= 1 the as-is model of "
                "ConstDivisor::new/reduce/residue, + - * neg dbl sqr ==, pow, inv, div and of the Reducer impl returns the residue the "
                "mathematics demands (representation invariant raw = (x mod m) << shift preserved by every operation, residues in [0, m), "
                "inverse exactly for units, division = div_spec, different rings panic, a zero modulus is the DivideBy0 panic, no debug "
@@ -121,8 +125,9 @@ TRUSTED_BASE = [
     "Coq 8.16.1 kernel (coqc; vm_compute only in closed Examples and in the stated finite domain of C13_gen_window_table: bit lengths 2..4096)",
     "extraction: ExtrOcamlBasic + ExtrOcamlZBigInt + the Extract Constant directives of coq/extract/FastZ.v",
     "OCaml 4.13.1 + zarith 1.12, oracle/common.ml, oracle/driver_c13.ml; Rust harness harness/src/bin/c13.rs",
-    "contract (hypothesis of C13_words_inv / gcd_ext_ok) for dashu's multi-word extended gcd gcd::gcd_ext_word / gcd_ext_dword / gcd_ext_in_place, "
-    "used by inv / division of the multi-word ring only",
+    "contract (hypothesis of C13_words_inv_lehmer_only / C13_externals_lehmer_only) for gcd::gcd_ext_in_place (Lehmer) on values of three and more "
+    "words, used by inv / division of the multi-word ring only; gcd_ext_word / gcd_ext_dword are transcribed and proved over C12's as-is model of "
+    "the primitive ExtendedGcd (GrlModel.prim_gcd_ext_asis)",
     "that the Gallina transcriptions (ModRingModel.v, ModRingWords.v, ModRingConv.v, ModRingNumModularDefs.v; C01's RingMul.v, C02's DivWordModel.v / "
     "DivNumModular.v) say what the Rust sources say - checked by the correspondence run, and for the regenerated fragments by "
     "tools/translate_c13_r3.py (regex / tiny expression grammar over modular/{pow,add,mul,repr,reducer,convert}.rs; the reading of `<<` as a "
